@@ -27,7 +27,7 @@ func init() { core.Register(prop{}) }
 func (prop) ID() string    { return "C09" }
 func (prop) Level() string { return "exploration" }
 func (prop) Rule() string {
-	return "exhaustive: every sequence of <= 4 Collect calls over 3 event IDs x 4 levels (22 620 histories) on a fresh alert.Topics, all queries after every step; model: seeded histories of 20-60 operations on the real alert service (Collect, UpdateEvent also on unknown topics, Register/Update/Deregister handler specs of kind log/publish/aggregate with generated match expressions over level() changed() name() taskName() alertDuration() and tags, anonymous handlers, DeleteTopic followed by new events, CloseTopic followed by new events: the topic returns from the store) over 3 topics, quiescent after every step; concurrent: 3-8 publishers collecting unique events on one topic with fast, slow and late/leaving handlers, EventState readers, under the race detector. " +
+	return "exhaustive: every sequence of <= 4 Collect calls over 3 event IDs x 4 levels (22 620 histories) on a fresh alert.Topics, all queries after every step; model: seeded histories of 20-60 operations on the real alert service (Collect, UpdateEvent also on unknown topics, Register/Update/Deregister handler specs of kind log/publish/aggregate with generated match expressions over level() changed() name() taskName() alertDuration() and tags, anonymous handlers, DeleteTopic followed by new events, CloseTopic followed by new events: the topic returns from the store) over 3 topics, quiescent after every step; concurrent: 3-8 publishers collecting unique events on one topic with fast, slow and late/leaving handlers, EventState readers, under the race detector; overflow: one handler of 2-4 is stuck with a full queue (1000) while 1050-1700 events are collected. " +
 		"Oracles: TopicState level == max level of the reference event map, TopicStates(pattern, min) and EventStates(topic, min) == reference filter, EventState == last state; every handler receives exactly the events its match admits while it is registered, once, in order, with PreviousLevel == level of the preceding event of that ID on that topic; published events reach the target topic's handlers once; aggregate counts sum to the events consumed; nothing reaches handlers of other topics; concurrent: per-publisher FIFO at every handler, exactly-once, previous-state links per ID form one chain, per (topic,id) porcupine register linearizability of Collect (write) / EventState (read), quiescent MaxLevel == max. " +
 		"Non-trivial: a history whose events changed the topic level at least twice and were delivered to >= 1 handler / a concurrent run with >= 3 publishers and >= 100 events"
 }
@@ -69,11 +69,23 @@ func (prop) Cases(tier string, seed uint64) []core.Case {
 	for i := 0; i < nc; i++ {
 		cs = append(cs, core.Case{ID: fmt.Sprintf("conc-%d", i), Kind: "concurrent", Seed: seed*9007 + uint64(i), N: 3, Race: i%2 == 0})
 	}
+	no := 4
+	if tier == "thorough" {
+		no = 40
+	}
+	for i := 0; i < no; i++ {
+		cs = append(cs, core.Case{ID: fmt.Sprintf("overflow-%d", i), Kind: "overflow", Seed: seed*9011 + uint64(i), N: 4})
+	}
 	return cs
 }
 
 func (prop) Run(x *core.Ctx) {
 	switch x.Case.Kind {
+	case "overflow":
+		r := core.NewRng(x.Case.Seed, 999)
+		for i := 0; i < x.Case.N; i++ {
+			runOverflow(x, r)
+		}
 	case "exhaustive":
 		runExhaustive(x)
 	case "model":
